@@ -789,16 +789,18 @@ def _masks_hfs_intersection(sym, ts, Ds, hfs):
     msks = [[{t: np.ones(D, dtype=bool) for t, D in zip(hf.t[i], hf.D[i])} for i, l in enumerate(tree[1:]) if l == 1]
             for hf in hfs]
 
-    keeped_ts, keeped_Ds = [], []
-    for ma0, ma1 in zip(*msks):
+    # charges and dimensions kept in each node of the tree; known for leafs, filled for fused spaces during parsing
+    keeped_ts, keeped_Ds = [None] * len(tree), [None] * len(tree)
+    leafs = [i for i, l in enumerate(tree) if l == 1 and i > 0]
+    for i, ma0, ma1 in zip(leafs, *msks):
         keeped_t, keeped_D = [], []
         for t in set(ma0) & set(ma1):
             if ma0[t].size != ma1[t].size:
                 raise YastnError('Bond dimensions of fused legs do not match.')
             keeped_t.append(t)
             keeped_D.append(ma0[t].size)
-        keeped_ts.append(tuple(keeped_t))
-        keeped_Ds.append(tuple(keeped_D))
+        keeped_ts[i] = tuple(keeped_t)
+        keeped_Ds[i] = tuple(keeped_D)
         _mask_falsify_mismatches_(ma0, ma1)
 
     # lists to be consumed during parsing of the tree
@@ -806,12 +808,15 @@ def _masks_hfs_intersection(sym, ts, Ds, hfs):
     s = [list(hf.s) for hf in hfs]
     t = [[teff] + list(hf.t) for hf in hfs]
     D = [[()] + list(hf.D) for hf in hfs]
+    nodes = list(range(len(tree)))  # positions of the remaining nodes in the original tree
 
     # parse the tree, building masks
     while len(tree) > 1:
         it, io, no = _tree_cut_contiguous_leafs_(tree)
         # Remove original leafs to be fused; collect info for fusion
         del op[it: it + no]
+        fused = [nodes.pop(it) for _ in range(no)]
+        kts, kDs = tuple(keeped_ts[i] for i in fused), tuple(keeped_Ds[i] for i in fused)
         ss = [tuple(s1.pop(it) for _ in range(no)) for s1 in s]
         tt = [tuple(t1.pop(it) for _ in range(no)) for t1 in t]
         DD = [tuple(D1.pop(it) for _ in range(no)) for D1 in D]
@@ -821,17 +826,17 @@ def _masks_hfs_intersection(sym, ts, Ds, hfs):
             lss = [_leg_structure_combine_charges_prod(sym, tt1, DD1, ss1, t1[it - 1], s1[it - 1])
                    for tt1, DD1, ss1, t1, s1 in zip(tt, DD, ss, t, s)]
             ma = [_merge_masks_prod(sym, ls1, ms1) for ls1, ms1 in zip(lss, mss)]
-            reduced_ls = _leg_structure_combine_charges_prod(sym, tuple(keeped_ts[:no]), tuple(keeped_Ds[:no]), ss[0], t[0][it - 1], s[0][it - 1])
+            reduced_ls = _leg_structure_combine_charges_prod(sym, kts, kDs, ss[0], t[0][it - 1], s[0][it - 1])
         else:  # op[it - 1] == 's':
             lss = [_leg_structure_combine_charges_sum(tt1, DD1) for tt1, DD1, in zip(tt, DD)]
             ma = [_merge_masks_sum(ls1, ms1) for ls1, ms1 in zip(lss, mss)]
-            reduced_ls = _leg_structure_combine_charges_sum(tuple(keeped_ts[:no]), tuple(keeped_Ds[:no]))
+            reduced_ls = _leg_structure_combine_charges_sum(kts, kDs)
         _mask_falsify_mismatches_(ma[0], ma[1])
         msks[0].insert(io, ma[0])
         msks[1].insert(io, ma[1])
 
-        keeped_ts.insert(0, reduced_ls.t)
-        keeped_Ds.insert(0, reduced_ls.D)
+        keeped_ts[nodes[it - 1]] = reduced_ls.t
+        keeped_Ds[nodes[it - 1]] = reduced_ls.D
     # Only the final leaf is left in msks[0] and msks[1]
     new_hfs = [_Fusion(hf.tree, hf.op, hf.s, tuple(keeped_ts[1:]), tuple(keeped_Ds[1:])) for hf in hfs]
     return msks[0].pop(), msks[1].pop(), new_hfs
